@@ -51,8 +51,11 @@ type Case struct {
 }
 
 // Build constructs the abstract profile of a case.
+// buildMaps are the binaries of the profiles Build makes (a family may swap them).
+var buildMaps = enum.Maps2
+
 func Build(sigma []enum.Kind, s1, s2 enum.Shape, v int) *ap.AP {
-	a := &ap.AP{Types: []ap.VT{{Type: "n", Unit: "count"}, {Type: "v", Unit: "count"}}, Maps: enum.Maps2,
+	a := &ap.AP{Types: []ap.VT{{Type: "n", Unit: "count"}, {Type: "v", Unit: "count"}}, Maps: buildMaps,
 		PeriodType: &ap.VT{Type: "n", Unit: "count"}, Period: 1}
 	if v < 0 {
 		st := s1.Stack(sigma, []int64{1, 3})
@@ -180,6 +183,32 @@ func Run(c *vk.Ctx) {
 				}
 			}
 		}
+	}
+	// binaries that do not declare what symbol information they carry (has_functions, has_inline_frames, ...
+	// all unset, as in a profile symbolized by other means): every shape with an inlined frame, alone and
+	// under a caller; the option product must give the same numbers as with the flags set
+	{
+		plain := make([]ap.Map, len(enum.Maps2))
+		for i, m := range enum.Maps2 {
+			plain[i] = ap.Map{Start: m.Start, Limit: m.Limit, File: m.File}
+		}
+		buildMaps = plain
+		for _, sh := range shapes {
+			inl := false
+			for _, g := range sh {
+				inl = inl || len(g) > 1
+			}
+			if !inl {
+				continue
+			}
+			if c.Mine(idx) {
+				checkProfile(c, sigma, sh, nil, -1, cfgs)
+				checkProfile(c, sigma, enum.Shape{{2}}, sh, 0, cfgs)
+				c.Count("family/undeclared-symbol-flags", 1)
+			}
+			idx++
+		}
+		buildMaps = enum.Maps2
 	}
 	// deep recursion: every plain stack of 4 and 5 frames over a1 and b (the same adjacency, or the same
 	// entry, several times in one sample: counted once per sample)
